@@ -26,13 +26,35 @@ type Peer struct {
 	Now      int64 // seconds
 	txSeq    uint64
 	KeyRules string // "leveldb" (default) or "couchdb"
+	// part of the next proposals: the client's transient map (travels with the proposal) and what this
+	// peer's decorators add to it (local to the endorsing peer, not part of the proposal)
+	Transient   map[string][]byte
+	Decorations map[string][]byte
 }
 
+// Channel is one deployed chaincode: by default named after its channel (as the platform deploys tokens). CCName /
+// ChannelID differ from Name when a second chaincode shares a channel (its state is its own namespace).
 type Channel struct {
-	Name  string
-	CC    shim.Chaincode
-	State map[string][]byte
-	peer  *Peer
+	Name      string
+	CCName    string // chaincode name in the signed proposal ("" = Name)
+	ChannelID string // what the stub reports as the channel ("" = Name)
+	CC        shim.Chaincode
+	State     map[string][]byte
+	peer      *Peer
+}
+
+func (ch *Channel) ccName() string {
+	if ch.CCName != "" {
+		return ch.CCName
+	}
+	return ch.Name
+}
+
+func (ch *Channel) channelID() string {
+	if ch.ChannelID != "" {
+		return ch.ChannelID
+	}
+	return ch.Name
 }
 
 func NewPeer() *Peer {
@@ -84,18 +106,21 @@ type TxStub struct {
 	other   []string
 	// hook called at GetState (C17 scheduling)
 	onGet func(key string)
+
+	transient, decorations map[string][]byte
 }
 
 var _ shim.ChaincodeStubInterface = (*TxStub)(nil)
 
 func (p *Peer) newStub(ch *Channel, txID string, creator []byte, args [][]byte) *TxStub {
 	spec := &pb.ChaincodeInvocationSpec{ChaincodeSpec: &pb.ChaincodeSpec{
-		ChaincodeId: &pb.ChaincodeID{Name: ch.Name}, Input: &pb.ChaincodeInput{Args: args}}}
+		ChaincodeId: &pb.ChaincodeID{Name: ch.ccName()}, Input: &pb.ChaincodeInput{Args: args}}}
 	specB, _ := proto.Marshal(spec)
-	payload, _ := proto.Marshal(&pb.ChaincodeProposalPayload{Input: specB})
+	payload, _ := proto.Marshal(&pb.ChaincodeProposalPayload{Input: specB, TransientMap: p.Transient})
 	prop, _ := proto.Marshal(&pb.Proposal{Payload: payload})
 	return &TxStub{ch: ch, txID: txID, args: args, creator: creator, ts: p.Now,
-		sp: &pb.SignedProposal{ProposalBytes: prop}, writes: map[string]KVWrite{}}
+		sp: &pb.SignedProposal{ProposalBytes: prop}, writes: map[string]KVWrite{},
+		transient: p.Transient, decorations: p.Decorations}
 }
 
 func strArgs(fn string, args []string) [][]byte {
@@ -208,7 +233,7 @@ func (s *TxStub) GetArgsSlice() ([]byte, error) {
 	return out, nil
 }
 func (s *TxStub) GetTxID() string      { return s.txID }
-func (s *TxStub) GetChannelID() string { return s.ch.Name }
+func (s *TxStub) GetChannelID() string { return s.ch.channelID() }
 
 func (s *TxStub) InvokeChaincode(name string, args [][]byte, channel string) pb.Response {
 	if name == "acl" {
@@ -416,9 +441,15 @@ func (s *TxStub) GetPrivateDataQueryResult(collection, query string) (shim.State
 	return &kvIter{}, nil
 }
 func (s *TxStub) GetCreator() ([]byte, error)               { return s.creator, nil }
-func (s *TxStub) GetTransient() (map[string][]byte, error)  { return map[string][]byte{}, nil }
+func (s *TxStub) GetTransient() (map[string][]byte, error) {
+	out := map[string][]byte{}
+	for k, v := range s.transient {
+		out[k] = v
+	}
+	return out, nil
+}
 func (s *TxStub) GetBinding() ([]byte, error)               { return nil, nil }
-func (s *TxStub) GetDecorations() map[string][]byte         { return nil }
+func (s *TxStub) GetDecorations() map[string][]byte         { return s.decorations }
 func (s *TxStub) GetSignedProposal() (*pb.SignedProposal, error) { return s.sp, nil }
 func (s *TxStub) GetTxTimestamp() (*timestamp.Timestamp, error) {
 	return &timestamp.Timestamp{Seconds: s.ts}, nil
